@@ -6,6 +6,7 @@ CONSTANTS
   WithHist = TRUE
   MaxG = 2
   GenLen = 12
+  WithWDL = FALSE
   DEV = "none"
 INVARIANTS Emit
 CONSTRAINT GenBound
